@@ -138,8 +138,8 @@ def rstep (r : RSt) : Ev → RSt
   | .begin k => submitR r k true
   | .greet g _ =>
     match g with
-    | .ok => { r with greeted := true, state := .notAuth }
-    | .preauth => { r with greeted := true, state := .auth }
+    | .ok => { r with greeted := true, state := .notAuth, mbox := none }
+    | .preauth => { r with greeted := true, state := .auth, mbox := none }
     | .bye => abortAll { r with greeted := true }
   | .cont => { r with waiting := none }
   | .tagged tag s code =>
